@@ -301,7 +301,8 @@ pub fn run(ctx: &mut Ctx) -> (String, Value, Vec<String>) {
     ("exploration".into(), cov, vec!["reference for traces: run sums over the raw trace; reference for histories: a brand-new ExtrapolatingCurve per query".into()])
 }
 
-pub fn replay(kind: &str, case: &Value) -> bool {
+pub fn replay(kind: &str, case: &Value, key: &str) -> bool {
+    let beyond_key = key.ends_with("-beyond-extended-prefix");
     match kind {
         "cost-hist" => {
             let pf: Vec<u64> = serde_json::from_value(case["prefix"].clone()).unwrap();
@@ -323,9 +324,47 @@ pub fn replay(kind: &str, case: &Value) -> bool {
             }
             true
         }
+        "cost" => {
+            let spec: CostSpec = serde_json::from_value(case["spec"].clone()).unwrap();
+            let mut ctx = Ctx::new("C14", crate::util::Tier::Quick);
+            let mut evals = 0;
+            laws(&mut ctx, "replay", &spec, case["nmax"].as_u64().unwrap_or(12) as usize, &mut evals);
+            ctx.n_violations() + ctx.n_known() > 0
+        }
         _ => {
-            println!("replay: re-run ./run.sh C14 quick for this artefact kind");
-            true
+            // extrapolation artefact: {costs, max_n, extrapolate} or {prefix, extrapolate}
+            let upto = case["extrapolate"].as_u64().unwrap_or(0) as usize;
+            let trace: Option<Vec<u64>> = case.get("costs").and_then(|c| serde_json::from_value(c.clone()).ok());
+            let max_n = case.get("max_n").and_then(|x| x.as_u64()).unwrap_or(3) as usize;
+            let prefix: Option<Vec<u64>> = case.get("prefix").and_then(|c| serde_json::from_value(c.clone()).ok());
+            let (t2, p2) = (trace.clone(), prefix.clone());
+            let r = with_timeout(10.0, move || {
+                let plain = match (&t2, &p2) {
+                    (Some(t), _) => wcet::Curve::from_trace(t.iter().map(|x| s(*x)), max_n),
+                    (_, Some(p)) => wcet::Curve::new(p.iter().map(|x| s(*x)).collect()),
+                    _ => panic!("bad artefact"),
+                };
+                let mut ext = plain.clone();
+                ext.extrapolate(upto);
+                let a: Vec<u64> = (0..=16).map(|n| su(plain.cost_of_jobs(n))).collect();
+                let b: Vec<u64> = (0..=16).map(|n| su(ext.cost_of_jobs(n))).collect();
+                (a, b)
+            });
+            match r {
+                Err(e) => {
+                    println!("replay: {:?}", e);
+                    true
+                }
+                Ok((a, b)) => {
+                    let len = trace.as_ref().map(|t| max_n.min(t.len())).or(prefix.as_ref().map(|p| p.len())).unwrap_or(0);
+                    let reach = len.max(upto.saturating_sub(1));
+                    // the artefact's key says which side of the extended prefix it is about
+                    let raised = (0..=16usize).filter(|n| if beyond_key { *n > reach } else { *n <= reach }).find(|n| b[*n] > a[*n]);
+                    let under = trace.as_ref().and_then(|t| (0..=16).find(|n| b[*n] < max_run(t, *n) && a[*n] >= max_run(t, *n)));
+                    println!("replay: plain {:?}\nreplay: extrapolated {:?}\nreplay: first n raised {:?}, first n below a run of the trace {:?}", a, b, raised, under);
+                    raised.is_some() || under.is_some()
+                }
+            }
         }
     }
 }
